@@ -950,7 +950,7 @@ def heap_judge(c, o):
     return o["bad"]
 
 
-def heap_stage(run, driver, cases, label, family="heap"):
+def heap_stage(run, driver, cases, label, family="heap", only=None):
     res = core.run_driver(driver, family, cases, per_case_timeout=180)
     nbad = 0
     for c in cases:
@@ -958,10 +958,12 @@ def heap_stage(run, driver, cases, label, family="heap"):
         sib = len(set(x["t"] for x in c["hist"] if x["op"] == "create")) < sum(1 for x in c["hist"] if x["op"] == "create")
         run.count(heap_text(c) if sib else None)
         bad = heap_judge(c, o) if not o.get("crash") else ["process died: " + o.get("stderr", "")[-300:]]
+        if only:
+            bad = [b for b in bad if only in b or "process died" in b]
         if bad and nbad < 20:
             nbad += 1
             rc = confirm_case(driver, family, c, o, ("bad",)) if not c.get("conc") else c
-            run.report({"history": heap_text(c)}, c, family, "%s %s: %s" % (label, heap_text(c), "; ".join(bad[:3])), (lambda rc=rc: rc is not None))
+            run.report({"history": heap_text(c)}, dict(c, only=only) if only else c, family, "%s %s: %s" % (label, heap_text(c), "; ".join(bad[:3])), (lambda rc=rc: rc is not None))
 
 
 @check("C08")
@@ -1011,6 +1013,8 @@ def replay_heap(run, body):
     c = dict(body["case"])
     o = core.run_driver(driver, body["family"], [c], nproc=1)[str(c["id"])]
     bad = heap_judge(c, o) if not o.get("crash") else ["process died"]
+    if c.get("only"):
+        bad = [b for b in bad if c["only"] in b or "process died" in b]
     run.count("replay")
     if bad:
         run.report(body["sig"], c, body["family"], "replayed: %s: %s" % (heap_text(c), "; ".join(bad[:3])))
@@ -1311,10 +1315,17 @@ def c17(run):
     run.rule = ("L1: Chain.tla RevPerBlock, RevPrefix, RevUnique (equal identifiers only for the same signing operation: every payload "
                 "contains a fresh next key) over all honest histories incl. identical contents on the same and on different tokens. "
                 "L2: histories replayed with fresh randomness: one id per block, equal to the signature the independent codec decodes, "
-                "parent's ids as prefix, pairwise distinct across signing operations.")
+                "parent's ids as prefix, pairwise distinct across signing operations. L3 (stable): the forked histories of SymHeap "
+                "(siblings from one parent with 1-20 tokens) are executed and RevocationIds() of EVERY live token is re-read after "
+                "every operation.")
     run.assumptions = CHAIN_ASSUME
     driver = core.build_driver(run.work)
     chain_honest(run, driver, {"C17"})
+    # stability over FORKED derivation histories (SymHeap: several children of one parent, every spare-capacity situation of the
+    # block list): the identifiers every live token reports are re-read after every later operation on any other token
+    gen = gen_cases(run, driver, "heap")
+    heap_expectations(run, gen)
+    heap_stage(run, driver, gen, "L3 identifiers re-read after every operation on a sibling", only="RevocationIds()")
 
 
 # =============================================================== C20 entropy failure
